@@ -42,7 +42,7 @@ def make_case(rng, i):
     tempos = gen.gen_tempos(rng, "realistic", res, rng.choice([1, 2, 6, 20]), 600 * 10**6)
     tm = model.TempoMap(res, tempos)
     horizon = tm.ticks[-1] + 8 * res
-    n = rng.choice([0, 1, 3, 10, 40, 200])
+    n = rng.choice([0, 1, 3, 10, 40, 200]) if i % 30 else 2500
     ticks = sorted(rng.choice([0, rng.randint(0, horizon), rng.choice(tm.ticks), rng.choice(tm.ticks) + 1]) for _ in range(n))
     if n >= 3 and rng.random() < 0.5:
         ticks[1] = ticks[0]
